@@ -778,13 +778,19 @@ def _drive(kind, jobs, factory_of, targets_of, check, deadline, stats, failures,
             done.add(tag)
             smoke.append((desc, {"granularity": "line", "max_preemptions": 0, "max_schedules": 6}, seed))
     stats["programs"] += len(smoke)
+    # load independence: directed programs first and never cut by the deadline; line granularity
+    # before opcode granularity (see _enable_opcode_events); the random bulk last within each group
+    ordered = sorted(list(jobs), key=lambda j: (j[1]["granularity"] == "opcode", not j[1].get("directed", True)))
+    stats.setdefault("cut_by_budget", 0)
     try:
-        for desc, cfg, seed in smoke + list(jobs):
+        for desc, cfg, seed in smoke + ordered:
             if len(failures) >= max_failures:
                 break
-            if _time.time() > deadline:
+            directed = cfg.get("directed", True)
+            if not directed and _time.time() > deadline:
                 stats["truncated_by_deadline"] = True
-                break
+                stats["cut_by_budget"] += 1
+                continue
             stats["explorations"] += 1
             gran = cfg["granularity"]
             targets = targets_of(desc)
@@ -812,8 +818,9 @@ def _drive(kind, jobs, factory_of, targets_of, check, deadline, stats, failures,
                         failures.append(_failure(kind, desc, schedule, gran, out, key, why, k,
                                                  stats["schedules"], factory_of, targets))
                     break
-                if _time.time() > deadline:
+                if not directed and _time.time() > deadline:
                     stats["truncated_by_deadline"] = True
+                    stats["cut_by_budget"] += 1
                     cut = True
                     break
             if not cut and k < cfg["max_schedules"]:
@@ -1132,11 +1139,24 @@ def _fixed_cache_programs():
         P(4, 3, [[A, 0], [A, 1]], [[["get", A]], [["set", B, 2]]], incs=[1, 4, 0, 0], n_ids=2),
         P(4, 3, [[A, 0]], [[["set", A, 1], ["get", A]], [["set", B, 2], ["get", A]]],
           incs=[0, 0, 0, 0, 4], final_inc=4, n_ids=2),
+        # the order of the time stamps in the ring must be the order of the stores (the purge stops at
+        # the first live entry): the later clock reading is maxAge/2 later, the final probe expires
+        # only the earlier one
+        P(4, 10, [], [[["set", A, 0]], [["set", B, 1]]], incs=[0, 5], final_inc=6),
+        P(4, 10, [], [[["set", A, 0]], [["set", B, 1]], [["get", A]]], incs=[0, 5, 6], final_inc=0),
+        P(3, 10, [[C, 2]], [[["set", A, 0], ["get", A]], [["set", B, 1]]], incs=[0, 0, 5, 6], final_inc=0),
     ]
 
 
-def _job(d, gran, pre, cap):
-    return (d, {"granularity": gran, "max_preemptions": pre, "max_schedules": cap})
+def _job(d, gran, pre, cap, directed=True):
+    """directed = a hand-written program that exists to expose one kind of defect: it is explored
+    completely whatever the machine load (never cut by the wall-clock guard); only the seeded random
+    programs (`_rjob`) may be cut, and the cut is recorded in stats['cut_by_budget']."""
+    return (d, {"granularity": gran, "max_preemptions": pre, "max_schedules": cap, "directed": directed})
+
+
+def _rjob(d, gran, pre, cap):
+    return _job(d, gran, pre, cap, directed=False)
 
 
 def _cache_jobs(rng, tier):
@@ -1146,13 +1166,13 @@ def _cache_jobs(rng, tier):
     fixed = _fixed_cache_programs()
     if tier == "quick":
         jobs = [_job(d, "line", 2, 1500) for d in fixed]
-        jobs += [_job(_random_cache_program(rng, three=(i % 4 == 3)), "line", 2, 600) for i in range(16)]
+        jobs += [_rjob(_random_cache_program(rng, three=(i % 4 == 3)), "line", 2, 600) for i in range(16)]
         jobs += [_job(d, "opcode", 1, 400) for d in fixed[:3]]
     else:
         jobs = [_job(d, "line", 3, 6000) for d in fixed]
-        jobs += [_job(_random_cache_program(rng, three=(i % 3 == 2)), "line", 3, 1200) for i in range(60)]
+        jobs += [_rjob(_random_cache_program(rng, three=(i % 3 == 2)), "line", 3, 1200) for i in range(60)]
         jobs += [_job(d, "opcode", 2, 2500) for d in fixed]
-        jobs += [_job(_random_cache_program(rng, three=False), "opcode", 2, 1000) for i in range(10)]
+        jobs += [_rjob(_random_cache_program(rng, three=False), "opcode", 2, 1000) for i in range(10)]
     return [(d, c, rng.getrandbits(48)) for d, c in jobs]
 
 
@@ -1317,14 +1337,14 @@ def _rsa_jobs(rng, tier):
 
     if tier == "quick":
         jobs = [_job(d, "line", 2, 900) for d in fixed]
-        jobs += [_job(rand(k), "line", 2, 300) for k in range(2)]
+        jobs += [_rjob(rand(k), "line", 2, 300) for k in range(2)]
         jobs += [_job(fixed[0], "opcode", 2, 600), _job(fixed[1], "opcode", 2, 400)]
-        jobs += [_job(rand(k), "opcode", 2, 300) for k in range(2)]
+        jobs += [_rjob(rand(k), "opcode", 2, 300) for k in range(2)]
     else:
         jobs = [_job(d, "line", 3, 6000) for d in fixed]
-        jobs += [_job(rand(k), "line", 3, 1000) for k in range(8)]
+        jobs += [_rjob(rand(k), "line", 3, 1000) for k in range(8)]
         jobs += [_job(d, "opcode", 3, 3000) for d in fixed]
-        jobs += [_job(rand(k), "opcode", 3, 1000) for k in range(8)]
+        jobs += [_rjob(rand(k), "opcode", 3, 1000) for k in range(8)]
     return [(d, c, rng.getrandbits(48)) for d, c in jobs]
 
 
@@ -1389,7 +1409,10 @@ class RacyDict(object):
 
 _DB_USERS = ["alice", "bob", "carol"]
 _DB_PASSWORDS = ["pw-a", "pw-b"]
-_DB_OPS = ("set", "get", "in", "del", "keys", "check")
+_DB_OPS = ("set", "get", "in", "del", "keys", "check", "rget", "rin")
+# "rget" / "rin": lookup / membership test of the internal record name; the internal records of a
+# database are never user entries: not returned, not contained, not listed by keys()
+_DB_RESERVED = "--Reserved--type"
 _DB_STATE = {}          # per tree: {"entries": {...}, "caps": {...}, "minimal": bool}
 _DB_DIR = [None]
 _DB_COUNTER = itertools.count()
@@ -1507,6 +1530,12 @@ def _db_do(db, desc, entries, op):
         if kind == "keys":
             ks = db.keys()
             return ["keys", sorted(k.decode("ascii") if isinstance(k, bytes) else str(k) for k in ks)]
+        if kind in ("rget", "rin"):
+            rname = _DB_RESERVED if desc["usertype"] == "str" else _DB_RESERVED.encode("ascii")
+            if kind == "rin":
+                return ["bool", bool(rname in db)]
+            v = db[rname]
+            return ["garbage", repr(v)[:80]]
         user = _db_user(desc, op[1])
         if kind == "set":
             db[user] = entries[op[2]][2]
@@ -1550,6 +1579,10 @@ def _db_model(desc, model, op):
     kind = op[0]
     if kind == "keys":
         return ["keys", sorted(_DB_USERS[u] for u in model)], model
+    if kind == "rget":
+        return ["KeyError"], model
+    if kind == "rin":
+        return ["bool", False], model
     u = op[1]
     if kind == "set":
         m = dict(model)
@@ -1586,7 +1619,7 @@ def _db_capabilities(mode, usertype, minimal):
     except Exception as e:
         st[key] = (set(), {"entries": "%s: %s" % (type(e).__name__, e)})
         return st[key]
-    script = [["in", 0], ["get", 0], ["del", 0], ["keys"], ["set", 0, 0], ["in", 0], ["get", 0],
+    script = [["rin"], ["rget"], ["in", 0], ["get", 0], ["del", 0], ["keys"], ["set", 0, 0], ["rin"], ["rget"], ["in", 0], ["get", 0],
               ["check", 0, 0], ["check", 0, 1], ["keys"], ["set", 1, 4], ["set", 0, 3], ["get", 0],
               ["check", 0, 1], ["check", 1, 0], ["keys"], ["del", 0], ["del", 0], ["get", 0],
               ["in", 0], ["keys"], ["check", 0, 0], ["get", 1]]
@@ -1725,7 +1758,8 @@ def _check_db(desc, out):
 
 
 def _random_db_program(rng, mode, usertype, minimal, caps, three=None):
-    kinds = [k for k in ("set", "set", "get", "in", "del", "keys", "check") if k in caps]
+    kinds = [k for k in ("set", "set", "set", "get", "get", "in", "in", "del", "del", "keys", "keys", "check", "check",
+                         "rget", "rin") if k in caps]
     nusers = rng.choice([1, 2, 2, 3])
     nent = len(_DB_USERS) * len(_DB_PASSWORDS)
 
@@ -1735,8 +1769,8 @@ def _random_db_program(rng, mode, usertype, minimal, caps, three=None):
             return ["set", u, rng.choice([u, u + len(_DB_USERS), rng.randrange(nent)])]
         if kind == "check":
             return ["check", u, rng.randrange(len(_DB_PASSWORDS))]
-        if kind == "keys":
-            return ["keys"]
+        if kind in ("keys", "rget", "rin"):
+            return [kind]
         return [kind, u]
 
     prefill = [op(rng.choice(["set", "set", "del"])) for _ in range(rng.randrange(0, 3))]
@@ -1778,6 +1812,8 @@ def _db_jobs(rng, tier, configs):
             fixed.append(D([[["set", 0, 3], ["check", 0, 1]], [["check", 0, 0], ["set", 1, 1]]], [["set", 0, 0]]))
         if "keys" in caps:
             fixed.append(D([[["set", 1, 1], ["keys"]], [["del", 0], ["keys"]]], [["set", 0, 0]]))
+        if "rget" in caps and "rin" in caps:
+            fixed.append(D([[["rget"], ["rin"]], [["set", 0, 0], ["rin"]]]))
         fixed = [d for d in fixed if all(o[0] in caps for th in d["threads"] for o in th)]
         disk = mode == "disk"
         if tier == "quick":
@@ -1786,7 +1822,7 @@ def _db_jobs(rng, tier, configs):
         else:
             cap, pre, nrand = 1500, 3, 8
         jobs += [_job(d, "line", pre, cap) for d in fixed]
-        jobs += [_job(_random_db_program(rng, mode, usertype, minimal, caps, three=(i % 3 == 2)),
+        jobs += [_rjob(_random_db_program(rng, mode, usertype, minimal, caps, three=(i % 3 == 2)),
                       "line", pre, cap) for i in range(nrand)]
         if mode == "racy" and tier != "quick":
             late += [_job(d, "opcode", 2, cap) for d in fixed[:3]]
